@@ -34,6 +34,8 @@ type GroupCfg struct {
 	Unwind   int     `json:"unwind"`
 	FanOut   int     `json:"fanout"`
 	MaxSteps int64   `json:"max_steps"`
+	ZeroStubs  []string `json:"zero_stubs"`
+	Strace     bool     `json:"strace"` // native replay under strace: real system-call paths are checked against the sandbox root
 	Instrument []string `json:"instrument"` // repo files (relative) that get Yield points (G2)
 }
 
@@ -194,6 +196,9 @@ func cmdCheck(args []string) {
 		for _, gl := range g.Globals {
 			ld.globalAllow[gl] = true
 		}
+		for _, z := range g.ZeroStubs {
+			ld.zeroStubs[z] = true
+		}
 		loadS += time.Since(tl).Seconds()
 		pkg := ld.pkgs[pkgPath]
 		pkg.Build()
@@ -288,6 +293,7 @@ func cmdCheck(args []string) {
 		os.WriteFile(path, b, 0o644)
 		return path
 	}
+	unconfirmed := 0
 	seenKnown := map[string]bool{}
 	for _, p := range knownViol {
 		if seenKnown[p.v.Known] {
@@ -297,11 +303,11 @@ func cmdCheck(args []string) {
 		lines = append(lines, fmt.Sprintf("KNOWN-FINDING: property=%s %s: %s (harness %s, obligation %s)", id, p.v.Known, knownWhat[p.v.Known], p.v.Harness, p.v.ID))
 	}
 	violations := 0
-	unconfirmed := 0
 	for i, p := range newViol {
 		path := writeReplay(p, i)
 		if *noReplay {
 			lines = append(lines, fmt.Sprintf("UNREPLAYED property=%s harness=%s obligation=%s kind=%s msg=%q site=%s replay=%s", id, p.v.Harness, p.v.ID, p.v.Kind, p.v.Msg, p.v.Site, path))
+			unconfirmed++
 			continue
 		}
 		ok, detail := nativeReplay(*repo, *verif, pdir, id, p.group, path, scratch)
@@ -599,19 +605,43 @@ func nativeReplay(repo, verif, pdir, id string, g GroupCfg, replayPath, scratch 
 	ovb, _ := json.Marshal(map[string]interface{}{"Replace": replace})
 	ovFile := filepath.Join(scratch, "overlay_"+sanitize(g.Package)+".json")
 	os.WriteFile(ovFile, ovb, 0o644)
-	cmd := exec.Command("go", "test", "-v", "-vet=off", "-count=1", "-timeout", "120s", "-run", "^TestVerifReplay$", "-overlay", ovFile, "./"+g.Package)
-	cmd.Dir = repo
-	cmd.Env = append(os.Environ(), "GOFLAGS=-mod=mod", "GOPROXY=off", "GOSUMDB=off", "GOTOOLCHAIN=local", "VERIF_REPLAY="+replayPath)
+	env := append(os.Environ(), "GOFLAGS=-mod=mod", "GOPROXY=off", "GOSUMDB=off", "GOTOOLCHAIN=local", "VERIF_REPLAY="+replayPath)
 	var out bytes.Buffer
-	cmd.Stdout = &out
-	cmd.Stderr = &out
-	runErr := cmd.Run()
+	var runErr error
+	straceEscapes := ""
+	if g.Strace {
+		bin := filepath.Join(scratch, "replay_"+sanitize(g.Package)+".test")
+		build := exec.Command("go", "test", "-c", "-vet=off", "-overlay", ovFile, "-o", bin, "./"+g.Package)
+		build.Dir = repo
+		build.Env = env
+		if bo, err := build.CombinedOutput(); err != nil {
+			return false, "replay build failed: " + firstLines(string(bo), 6)
+		}
+		traceFile := filepath.Join(scratch, "strace_"+sanitize(filepath.Base(replayPath))+".txt")
+		cmd := exec.Command("strace", "-f", "-s", "4096", "-e", "trace=%file", "-o", traceFile, bin, "-test.run", "^TestVerifReplay$", "-test.v", "-test.timeout", "120s")
+		cmd.Dir = filepath.Join(repo, g.Package)
+		cmd.Env = env
+		cmd.Stdout = &out
+		cmd.Stderr = &out
+		runErr = cmd.Run()
+		straceEscapes = sandboxEscapes(out.String(), traceFile, rf.Assert)
+	} else {
+		cmd := exec.Command("go", "test", "-v", "-vet=off", "-count=1", "-timeout", "120s", "-run", "^TestVerifReplay$", "-overlay", ovFile, "./"+g.Package)
+		cmd.Dir = repo
+		cmd.Env = env
+		cmd.Stdout = &out
+		cmd.Stderr = &out
+		runErr = cmd.Run()
+	}
 	text := out.String()
 	if !strings.Contains(text, "VERIF-REPLAY-BEGIN") {
 		return false, "replay did not start: " + firstLines(text, 6)
 	}
 	if strings.Contains(text, "ASSUME-FALSE") {
 		return false, "model violates harness assumption natively"
+	}
+	if straceEscapes != "" && rf.Kind == "assert" && strings.Contains(rf.Assert, "-inside-") {
+		return true, "real system call outside the sandbox root: " + straceEscapes
 	}
 	switch rf.Kind {
 	case "assert":
@@ -654,6 +684,9 @@ func grepLine(s, sub string) string {
 }
 
 func replayOnly(repo, verif, id string, pc PropCfg, path string) int {
+	if abs, err := filepath.Abs(path); err == nil {
+		path = abs
+	}
 	var rf struct {
 		Package string `json:"package"`
 	}
@@ -678,4 +711,70 @@ func replayOnly(repo, verif, id string, pc PropCfg, path string) int {
 	}
 	fmt.Fprintln(os.Stderr, "no group for package", rf.Package)
 	return 2
+}
+
+var quotedRe = regexp.MustCompile(`"((?:[^"\\]|\\.)*)"`)
+
+// sandboxEscapes scans the strace output between the harness' marker calls
+// for path arguments that lie in the sandbox directory but outside its root.
+func sandboxEscapes(stdout, traceFile, assertID string) string {
+	dir, root := "", ""
+	createOnly := false
+	for _, l := range strings.Split(stdout, "\n") {
+		if strings.HasPrefix(l, "VERIF-SANDBOX ") {
+			f := strings.Fields(l)
+			if len(f) == 3 {
+				dir, root = f[1], f[2]
+			}
+		}
+	}
+	// a harness may declare a narrower root for creating calls, used for
+	// obligations whose id names it ("...-inside-<tag>...")
+	for _, l := range strings.Split(stdout, "\n") {
+		if strings.HasPrefix(l, "VERIF-SUBROOT ") {
+			f := strings.Fields(l)
+			if len(f) == 3 && strings.Contains(assertID, f[1]) {
+				root = f[2]
+				createOnly = true
+			}
+		}
+	}
+	if dir == "" {
+		return ""
+	}
+	b, err := os.ReadFile(traceFile)
+	if err != nil {
+		return ""
+	}
+	active := false
+	for _, l := range strings.Split(string(b), "\n") {
+		if strings.Contains(l, "/VERIF-MARK-BEGIN") {
+			active = true
+			continue
+		}
+		if strings.Contains(l, "/VERIF-MARK-END") {
+			active = false
+			continue
+		}
+		if !active {
+			continue
+		}
+		if createOnly && !strings.Contains(l, "O_CREAT") && !strings.Contains(l, "mkdir") {
+			continue
+		}
+		for _, m := range quotedRe.FindAllStringSubmatch(l, -1) {
+			p := m[1]
+			if p != dir && !strings.HasPrefix(p, dir+"/") {
+				continue
+			}
+			if p == root || strings.HasPrefix(p, root+"/") {
+				continue
+			}
+			if i := strings.Index(l, " "); i > 0 {
+				l = l[i+1:]
+			}
+			return l
+		}
+	}
+	return ""
 }
